@@ -19,61 +19,34 @@
 (* HV stands for H(k) = KeyHasher over key_hasher_impl (KeyOrder!HashSeq); *)
 (* the conformance side logs every returned hash as 1 (= reference hash)   *)
 (* or 0.  Sequentially consistent interleavings.                           *)
-(*                                                                         *)
-(* Comparers evaluate `k == other`, `k.cmp(&other)` and the std Hash of    *)
-(* both while the shared key k is being hashed for the first time.  other  *)
-(* is either an EQUAL key (another construction path, its hash cached) or  *)
-(* an unequal control.  As coded, PartialEq / Ord / Hash read NOTHING from *)
-(* the memo (key.rs: only name and labels): one step, result = the         *)
-(* structural verdict of KeyOrder.tla.  The property demands exactly that: *)
-(* the results of ==, cmp and Hash must not depend on the memo state, so   *)
-(* "a == b <=> cmp = Equal" holds in every state, whatever the memo holds. *)
-(* Witness constant EqReadsMemoValueFirst = TRUE models an eq() with a     *)
-(* "cheap rejection" that loads the two cached hash VALUES first and the   *)
-(* `hashed` FLAGS afterwards (two steps): TLC must reject it.              *)
 (***************************************************************************)
 EXTENDS Naturals, FiniteSets, TLC
 
 CONSTANTS Getters,    \* thread ids calling get_hash NCalls times each
           Cloners,    \* thread ids cloning the shared key once and calling get_hash on the copy
           NCalls,
-          InitKinds,  \* subset of {"static", "built"}
-          Comparers,  \* thread ids evaluating k == other / k.cmp(other) NCalls times each
-          EqReadsMemoValueFirst   \* FALSE: eq as coded.  TRUE: witness variant (must be rejected)
+          InitKinds   \* subset of {"static", "built"}
 
 HV == 1               \* H(k); 0 is the initial content of `hash`
 None == 2             \* no value returned yet
-HV2 == 3              \* hash of the unequal control key
-PairKinds == {"equal", "control"}
-(* the verdicts of KeyOrder.tla for (k, other): nothing but name and labels *)
-StructEq(kind) == IF kind = "equal" THEN 1 ELSE 0
-StructCmp(kind) == IF kind = "equal" THEN 0 ELSE 1       \* 0 = Equal, 1 = not Equal
-OtherHash(kind) == IF kind = "equal" THEN HV ELSE HV2    \* other was built by Key::builder: hashed, hash cached
 
 VARIABLES
   hashed, hash,       \* the shared key's atomics
   pc, cnt,            \* per thread: program counter, completed get_hash calls
   ret,                \* per thread: last value returned by get_hash
   ch, cv,             \* per cloner: the copy's hashed / hash
-  retok,              \* history: every value returned so far was H(k)
-  pk, cl,             \* per comparer: kind of `other` in the current evaluation, loaded k.hash (witness variant)
-  eqres, cmpres,      \* per comparer: results of the last evaluation (None: none yet)
-  eqok                \* history: every evaluation so far satisfied a == b <=> cmp = Equal
+  retok               \* history: every value returned so far was H(k)
 
-cvars == <<pk, cl, eqres, cmpres, eqok>>
-vars == <<hashed, hash, pc, cnt, ret, ch, cv, retok, cvars>>
-Threads == Getters \cup Cloners \cup Comparers
+vars == <<hashed, hash, pc, cnt, ret, ch, cv, retok>>
+Threads == Getters \cup Cloners
 
 InitFor(kind) ==
   /\ hashed = (kind = "built") /\ hash = (IF kind = "built" THEN HV ELSE 0)
-  /\ pc = [t \in Threads |-> IF t \in Getters THEN "lh" ELSE IF t \in Cloners THEN "c1" ELSE "q0"]
+  /\ pc = [t \in Threads |-> IF t \in Getters THEN "lh" ELSE "c1"]
   /\ cnt = [t \in Threads |-> 0]
   /\ ret = [t \in Threads |-> None]
   /\ ch = [t \in Cloners |-> FALSE] /\ cv = [t \in Cloners |-> 0]
   /\ retok = TRUE
-  /\ pk = [t \in Comparers |-> "equal"] /\ cl = [t \in Comparers |-> 0]
-  /\ eqres = [t \in Comparers |-> None] /\ cmpres = [t \in Comparers |-> None]
-  /\ eqok = TRUE
 Init == \E kind \in InitKinds : InitFor(kind)
 
 Return(t, v) ==
@@ -85,76 +58,47 @@ Return(t, v) ==
 LoadHashed(t) ==
   /\ t \in Getters /\ pc[t] = "lh" /\ cnt[t] < NCalls
   /\ pc' = [pc EXCEPT ![t] = IF hashed THEN "lv" ELSE "sv"]
-  /\ UNCHANGED <<hashed, hash, cnt, ret, ch, cv, retok, cvars>>
+  /\ UNCHANGED <<hashed, hash, cnt, ret, ch, cv, retok>>
 (* hash.load(Acquire): the fast path returns whatever is stored *)
 LoadHash(t) ==
   /\ t \in Getters /\ pc[t] = "lv"
   /\ Return(t, hash)
   /\ pc' = [pc EXCEPT ![t] = "lh"]
-  /\ UNCHANGED <<hashed, hash, ch, cv, cvars>>
+  /\ UNCHANGED <<hashed, hash, ch, cv>>
 (* hash.store(generate_key_hash(..), Release) *)
 StoreHash(t) ==
   /\ t \in Getters /\ pc[t] = "sv"
   /\ hash' = HV
   /\ pc' = [pc EXCEPT ![t] = "sh"]
-  /\ UNCHANGED <<hashed, cnt, ret, ch, cv, retok, cvars>>
+  /\ UNCHANGED <<hashed, cnt, ret, ch, cv, retok>>
 (* hashed.store(true, Release); returns the hash it computed *)
 StoreHashed(t) ==
   /\ t \in Getters /\ pc[t] = "sh"
   /\ hashed' = TRUE
   /\ Return(t, HV)
   /\ pc' = [pc EXCEPT ![t] = "lh"]
-  /\ UNCHANGED <<hash, ch, cv, cvars>>
+  /\ UNCHANGED <<hash, ch, cv>>
 
 (* Clone: hashed first, then hash *)
 CloneLoadHashed(t) ==
   /\ t \in Cloners /\ pc[t] = "c1"
   /\ ch' = [ch EXCEPT ![t] = hashed]
   /\ pc' = [pc EXCEPT ![t] = "c2"]
-  /\ UNCHANGED <<hashed, hash, cnt, ret, cv, retok, cvars>>
+  /\ UNCHANGED <<hashed, hash, cnt, ret, cv, retok>>
 CloneLoadHash(t) ==
   /\ t \in Cloners /\ pc[t] = "c2"
   /\ cv' = [cv EXCEPT ![t] = hash]
   /\ pc' = [pc EXCEPT ![t] = "cr"]
-  /\ UNCHANGED <<hashed, hash, cnt, ret, ch, retok, cvars>>
+  /\ UNCHANGED <<hashed, hash, cnt, ret, ch, retok>>
 (* get_hash on the private copy (nobody else sees it: one step) *)
 CloneGetHash(t) ==
   /\ t \in Cloners /\ pc[t] = "cr"
   /\ Return(t, IF ch[t] THEN cv[t] ELSE HV)
   /\ pc' = [pc EXCEPT ![t] = "done"]
-  /\ UNCHANGED <<hashed, hash, ch, cv, cvars>>
-
-(* ---- comparers ---- *)
-Evaluated(t, kind, e, c) ==
-  /\ pk' = [pk EXCEPT ![t] = kind]
-  /\ eqres' = [eqres EXCEPT ![t] = e] /\ cmpres' = [cmpres EXCEPT ![t] = c]
-  /\ eqok' = (eqok /\ ((e = 1) <=> (c = 0)))
-  /\ cnt' = [cnt EXCEPT ![t] = @ + 1]
-(* As coded: ==, cmp and Hash look at name and labels only - one step, no shared read *)
-CompareAsCoded(t) ==
-  /\ ~EqReadsMemoValueFirst
-  /\ t \in Comparers /\ pc[t] = "q0" /\ cnt[t] < NCalls
-  /\ \E kind \in PairKinds : Evaluated(t, kind, StructEq(kind), StructCmp(kind))
-  /\ UNCHANGED <<hashed, hash, pc, ret, ch, cv, retok, cl>>
-(* Witness variant, step 1: self.hash.load (other.hash is other's own cached value) *)
-CompareLoadValues(t) ==
-  /\ EqReadsMemoValueFirst
-  /\ t \in Comparers /\ pc[t] = "q0" /\ cnt[t] < NCalls
-  /\ \E kind \in PairKinds : pk' = [pk EXCEPT ![t] = kind]
-  /\ cl' = [cl EXCEPT ![t] = hash]
-  /\ pc' = [pc EXCEPT ![t] = "q1"]
-  /\ UNCHANGED <<hashed, hash, cnt, ret, ch, cv, retok, eqres, cmpres, eqok>>
-(* step 2: self.hashed.load (other.hashed is TRUE); values differ and both flags set -> false, else the slow path *)
-CompareLoadFlags(t) ==
-  /\ EqReadsMemoValueFirst
-  /\ t \in Comparers /\ pc[t] = "q1"
-  /\ Evaluated(t, pk[t], IF cl[t] # OtherHash(pk[t]) /\ hashed THEN 0 ELSE StructEq(pk[t]), StructCmp(pk[t]))
-  /\ pc' = [pc EXCEPT ![t] = "q0"]
-  /\ UNCHANGED <<hashed, hash, ret, ch, cv, retok, cl>>
+  /\ UNCHANGED <<hashed, hash, ch, cv>>
 
 Next == \E t \in Threads : \/ LoadHashed(t) \/ LoadHash(t) \/ StoreHash(t) \/ StoreHashed(t)
                            \/ CloneLoadHashed(t) \/ CloneLoadHash(t) \/ CloneGetHash(t)
-                           \/ CompareAsCoded(t) \/ CompareLoadValues(t) \/ CompareLoadFlags(t)
 Spec == Init /\ [][Next]_vars
 
 -----------------------------------------------------------------------------
@@ -166,10 +110,5 @@ RetOK == retok /\ \A t \in Threads : ret[t] \in {HV, None}
 MemoOK == hashed => hash = HV
 (* a copy taken at any moment of the race is as good as the original *)
 CloneOK == \A t \in Cloners : (pc[t] \in {"cr", "done"} /\ ch[t]) => cv[t] = HV
-(* a == b exactly when a.cmp(b) is Equal - in every state, whatever the memo holds *)
-EqCmpAgree == eqok /\ \A t \in Comparers : eqres[t] # None => ((eqres[t] = 1) <=> (cmpres[t] = 0))
-(* ==, cmp (and Hash) do not depend on the memo state: always the structural verdict *)
-EqIgnoresMemo == \A t \in Comparers : eqres[t] # None => (eqres[t] = StructEq(pk[t]) /\ cmpres[t] = StructCmp(pk[t]))
-Done == \A t \in Threads : IF t \in Getters THEN pc[t] = "lh" /\ cnt[t] = NCalls
-                           ELSE IF t \in Cloners THEN pc[t] = "done" ELSE pc[t] = "q0" /\ cnt[t] = NCalls
+Done == \A t \in Threads : IF t \in Getters THEN pc[t] = "lh" /\ cnt[t] = NCalls ELSE pc[t] = "done"
 =============================================================================
